@@ -74,10 +74,11 @@ def c06_2(c: Ctx) -> None:
     ws = [w for w in c.cg.all_writes('holds_global_lock') if w.target == 'holds_global_lock']
     c.floor(len(ws), 2, 'writes of holds_global_lock')
     rl = c.unit(SVC, 'EventBus._run_loop')
+    prep = runloop_context_preparers(c)
     for w in ws:
         if w.unit.cls == 'ReentrantLock':
             c.ok(w.where() + ' ' + w.unit.qualname, f'holds_global_lock.{w.how}(...) inside ReentrantLock')
-        elif w.unit.key == rl.key and isinstance(w.node, ast.Call) and w.how == 'set' and len(w.node.args) == 1 and isinstance(w.node.args[0], ast.Constant) and w.node.args[0].value is False:
+        elif (w.unit.key == rl.key or w.unit.key in prep) and isinstance(w.node, ast.Call) and w.how == 'set' and len(w.node.args) == 1 and isinstance(w.node.args[0], ast.Constant) and w.node.args[0].value is False:
             c.ok(w.where() + ' ' + w.unit.qualname, 'run loop resets holds_global_lock to False (does not claim ownership)')
         else:
             c.fail(w.unit, f'writes holds_global_lock: {U(w.node)[:80]}', f'lock ownership flag written outside ReentrantLock (in {w.unit.qualname}): code can claim the lock without holding it', node=w.node)
@@ -218,6 +219,11 @@ def c06_3(c: Ctx) -> None:
                 has_ctx = q.kw(call, 'context') is not None
                 if not bad:
                     c.ok(where(u, call), 'handler-executor tasks only under self.parallel_handlers' + (' (explicit context=)' if has_ctx else ''))
+                elif call_name(call) == 'create_task' and serial_task_discipline(c, u, g, call, [s_ for _u, s_ in sites if _u.key == u.key and isinstance(s_, ast.Call) and call_name(s_) == 'create_task'
+                                                                                                 and s_.args and isinstance(s_.args[0], ast.Call) and isinstance(c.an.fm.resolve_call(s_.args[0], u), Unit)
+                                                                                                 and (c.an.fm.resolve_call(s_.args[0], u).key == eh.key or c.an.fm.resolve_call(s_.args[0], u).name in handler_wrappers)],
+                                                                              f'{u.params()[0]}.parallel_handlers') is None:
+                    c.ok(where(u, call), 'without parallel_handlers each handler-executor task is awaited to completion before the next one is created (one at a time)')
                 else:
                     c.fail(u, f'execute_handler task created without parallel_handlers guard', 'handlers overlap on a bus that did not ask for parallel handlers', node=call, witness=c.path(g.entry, bad[0]))
             elif isinstance(r, Unit):
@@ -231,6 +237,33 @@ def c06_3(c: Ctx) -> None:
                 c.ok(where(u, call), f'task `{U(pl)[:50]}` is a library waiter (queue/event), runs no bus code')
             else:
                 c.fail(u, f'unclassified task payload {U(pl)[:70]}', 'a task-creation site whose payload the analysis cannot classify (may inherit lock ownership)', node=call)
+
+
+def runloop_context_preparers(c: Ctx) -> set:
+    """Functions whose only use is `<ctx>.run(f)` on a copied context that is then handed to the run-loop task (`create_task(self._run_loop(), context=<ctx>)`): they run
+    in the context the run loop starts in, before it starts.  Writing constants (False / None) to the handler context variables there is the same as resetting them at the start of
+    the run loop.  Returns the unit keys."""
+    rl = c.unit(SVC, 'EventBus._run_loop')
+    out = set()
+    for u, call in c.cg.callers(rl):
+        par = parent(call)
+        if not (isinstance(par, ast.Call) and call_name(par) == 'create_task'):
+            continue
+        ctx = q.kw(par, 'context')
+        if not isinstance(ctx, ast.Name):
+            continue
+        defs = [n for n in own_nodes(u.node) if isinstance(n, ast.Assign) and U(n.targets[0]) == ctx.id]
+        if not defs or not all(isinstance(d.value, ast.Call) and U(d.value.func) in ('contextvars.copy_context', 'copy_context') for d in defs):
+            continue
+        for r in [n for n in own_nodes(u.node) if isinstance(n, ast.Call) and call_name(n) == 'run' and isinstance(n.func, ast.Attribute) and U(n.func.value) == ctx.id and len(n.args) == 1 and isinstance(n.args[0], ast.Name)]:
+            fn = c.prog.resolve_name_callee(r.args[0].id, u)
+            if fn is None:
+                continue
+            # referenced nowhere else
+            refs = [x for uu in c.prog.units.values() for x in own_nodes(uu.node) if isinstance(x, ast.Name) and x.id == fn.node.name and isinstance(x.ctx, ast.Load)]
+            if all(x is r.args[0] for x in refs):
+                out.add(fn.key)
+    return out
 
 
 def _resets_lock_flag(c: Ctx, fn: Unit) -> bool:
@@ -332,10 +365,13 @@ def c06_4(c: Ctx) -> None:
         n_task += 1
         facts = Facts(lambda a: a == f'{u.params()[0]}.parallel_handlers', cg=c.cg, unit=u)
         st = q.stmt_of(call)
+        spawns = [parent(x) for x in sites if isinstance(parent(x), ast.Call) and call_name(parent(x)) == 'create_task']
         for n in g.nodes_of(st):
             p = q.guard_search(g, n, f'{u.params()[0]}.parallel_handlers', facts)
             if p is None:
                 c.ok(where(u, call), 'concurrent handler execution only when self.parallel_handlers')
+            elif isinstance(parent(call), ast.Call) and call_name(parent(call)) == 'create_task' and serial_task_discipline(c, u, g, parent(call), spawns, f'{u.params()[0]}.parallel_handlers') is None:
+                c.ok(where(u, call), 'without parallel_handlers each handler task is awaited to completion before the next one is created: no two handlers of the event overlap')
             else:
                 c.fail(u, 'concurrent handler execution without parallel_handlers guard', 'handlers of one event overlap on a bus created with parallel_handlers=False', node=call, witness=c.path(g.entry, p))
     if n_task == 0:
